@@ -27,9 +27,15 @@ func B64OK(name string, x *smt.Term) *smt.Term {
 	return smt.UF("b64ok_"+name, []string{"String"}, &smt.Term{K: smt.KBool}, x)
 }
 
+const b64AlphabetRe = `(re.* (re.union (re.range "a" "z") (re.range "A" "Z") (re.range "0" "9") (str.to_re "+") (str.to_re "/") (str.to_re "=") (str.to_re "-") (str.to_re "_")))`
+
 func (in *Interp) b64Encode(name string, x *smt.Term) *smt.Term {
 	e := B64E(name, x)
 	in.assumeOnce(smt.And(B64OK(name, e), smt.Eq(B64D(name, e), x)))
+	if in.Ghost["b64.alphabet"] != nil {
+		// encoder output consists of base64 alphabet characters only (needed where the text is percent-encoded)
+		in.assumeOnce(smt.App(smt.KBool, 0, "str.in_re", e, &smt.Term{K: smt.KBool, S: b64AlphabetRe}))
+	}
 	return e
 }
 
